@@ -83,15 +83,18 @@ def check_model(m, text, acc, cs, name, record=True):
     got = {tid_: ((o["start"], o["end"]) if o["sch"] else None) for tid_, o in obs.T.items()}
     acc.count("tasks-compared", len(ref))
     acc.count("ev:pick", sum(1 for e in events if e["k"] == "pick"))
+    # Pinned milestones need nobody and have their date from the start: they count as placed before the priority loop
+    # (variant 0).  Variant 1 (placing them in priority order) is computed only to COUNT how often the two readings
+    # differ; accepting it would make a missing container roll-up before the loop unobservable (sensitivity probe
+    # C07-no-preloop-rollup), so it is not accepted.
     bad = None
-    for r, _, _, _ in refs:
-        diff = [k for k in r if r[k] != got.get(k)]
-        if not diff:
-            bad = None
-            break
-        bad = bad or (diff, r)
+    diff = [k for k in refs[0][0] if refs[0][0][k] != got.get(k)]
+    if diff:
+        bad = (diff, refs[0][0])
     if refs[0][0] != refs[1][0]:
         acc.count("cases-where-variants-differ")
+        if bad and not [k for k in refs[1][0] if refs[1][0][k] != got.get(k)]:
+            acc.count("engine-matches-priority-order-variant-only")
     feats = (m["res"], len([t for t in m["tasks"] if not t["container"]]), max(len(t["path"]) for t in m["tasks"]),
              tuple(sorted({len(t.get("alloc", [])) for t in m["tasks"]})), bool(m["shifts"]),
              any(r.get("limits") for r in m["resources"]) or any(g.get("limits") for g in m.get("groups", [])),
@@ -223,6 +226,19 @@ def worker(job, acc):
         kw = dict(core=True, subslot=False, alap=False, alts=False, res_choices=(60, 60, 30, 15, 10), nres=(1, 3), ntasks=(2, 9),
                   tasklimits=(ci % 3 == 0), contention=(ci % 2 == 0), milestones=0.15, max_depth=3)
         m = gen.gen(rnd, **kw)
+        if ci % 6 == 0:
+            # a container that is complete before the priority loop starts (all children pinned milestones), with a
+            # high-priority task depending on it: the container must count as placed from the start
+            leaves_ = [t for t in m["tasks"] if "effort_min" in t and not t.get("deps") and "start" not in t and len(t["path"]) == 1]
+            if leaves_:
+                pin = m["start"] + timedelta(days=rnd.randrange(0, 3), minutes=rnd.randrange(0, 12 * 60, m["res"]))
+                m["tasks"].insert(0, dict(path=("gpin",), container=True))
+                m["tasks"].insert(1, dict(path=("gpin", "mp"), container=False, milestone=True, start=pin, priority=rnd.choice([1, 100, 500])))
+                t = rnd.choice(leaves_)
+                t["deps"] = [dict(to=("gpin",))]
+                t["priority"] = 1000
+                gen.assign_decl(m)
+                m["acyclic"] = gen.acyclic(m)
         if not m["acyclic"]:
             acc.count("skipped-cyclic")
             continue
